@@ -442,6 +442,23 @@ impl C09 {
                 }
             }
         }
+        // length ladders: long flat chains and long literals (no nesting)
+        let lengths: Vec<usize> = match self.ctx.tier {
+            Tier::Quick => vec![1000, 100_000],
+            Tier::Thorough => vec![10, 1000, 10_000, 100_000, 1_000_000],
+        };
+        for shape in ["or-chain", "and-chain", "eq-or-chain", "path-chain", "filter-long-str", "filter-long-id"] {
+            for n in &lengths {
+                let doc = gen_zinc::long_doc(shape, *n);
+                for sink in ["filter-parse", "filter-parse-capi"] {
+                    let mut c = Case::new("C09", sink, &doc);
+                    c.extra.insert("nest_shape".into(), shape.into());
+                    c.extra.insert("nest_depth".into(), (*n as u64).into());
+                    c.origin = format!("length ladder {shape} n={n}");
+                    cases.push(c);
+                }
+            }
+        }
         cases
     }
 
